@@ -691,10 +691,17 @@ class Inliner(object):
             if not term and not isinstance(st, ast.Expr):
                 new = new + k(None)
             out = _drop_self_assign(pre + new)
+        # the inlined statements take the position of the call site (rules order statements by line); the line they were written
+        # on is kept for the report
         for x in out:
             for y in ast.walk(x):
-                if isinstance(y, (ast.stmt, ast.expr)) and not hasattr(y, 'lineno'):
-                    ast.copy_location(y, st)
+                if isinstance(y, (ast.stmt, ast.expr, ast.ExceptHandler)):
+                    if hasattr(y, 'lineno') and not hasattr(y, '_src_lineno'):
+                        y._src_lineno = y.lineno
+                    y.lineno = st.lineno
+                    y.end_lineno = getattr(st, 'end_lineno', st.lineno)
+                    y.col_offset = getattr(y, 'col_offset', 0)
+                    y.end_col_offset = getattr(y, 'end_col_offset', 0)
             ast.fix_missing_locations(x)
         return out
 
@@ -1142,6 +1149,14 @@ MUTATORS = ('append', 'extend', 'insert', 'pop', 'remove', 'clear', 'update', 's
             'fill', 'resize', 'put', 'itemset', 'setflags', 'byteswap')
 
 
+PURE_FUNCS = ('len', 'str', 'int', 'float', 'bool', 'tuple', 'abs', 'min', 'max', 'isinstance', 'hasattr', 'repr', 'range', 'np.prod', 'np.shape', 'np.ndim', 'np.isscalar')
+
+
+def _is_pure_call(x):
+    """call of a builtin that only looks at its (pure) arguments"""
+    return isinstance(x, ast.Call) and ast.unparse(x.func) in PURE_FUNCS and not any(isinstance(a, ast.Starred) for a in x.args)
+
+
 def _is_access_path(e):
     """a name, or attribute / constant-or-name subscript steps from one: evaluating it again gives the same object (or an equivalent
     view) as long as no step of the path is rebound"""
@@ -1184,8 +1199,7 @@ def propagate_new_temporaries(fn, pinfn):
             name = st.targets[0].id
             if name in pin_ids or name in params or len(stores.get(name, [])) != 1:
                 continue
-            if not all(isinstance(x, PURE_NODES) for x in ast.walk(st.value)):
-                continue
+            pure = all(isinstance(x, PURE_NODES) or _is_pure_call(x) or (isinstance(x, ast.keyword)) for x in ast.walk(st.value))
             blk_owner = parent.get(id(st))
             blk = None
             for fld in ('body', 'orelse', 'finalbody'):
@@ -1199,6 +1213,29 @@ def propagate_new_temporaries(fn, pinfn):
             uses = [x for x in ast.walk(fn) if isinstance(x, ast.Name) and x.id == name and isinstance(x.ctx, ast.Load)]
             if not uses or not all(id(u) in after_ids for u in uses):
                 continue
+            if not pure:
+                # anything else (a comprehension, a call): only when it is read once, by the very next statement, evaluated once
+                # there and before any call of that statement completes - the order of evaluation then is unchanged
+                nxt = after[0] if after else None
+                if len(uses) != 1 or nxt is None or isinstance(nxt, (ast.For, ast.While, ast.If, ast.Try, ast.With, ast.FunctionDef, ast.ClassDef)) \
+                        or id(uses[0]) not in set(id(x) for x in ast.walk(nxt)) or _contains([st.value], (ast.Yield, ast.YieldFrom, ast.Await, ast.NamedExpr)):
+                    continue
+                u = uses[0]
+                lazy = False
+                p_ = parent.get(id(u))
+                while p_ is not None and p_ is not nxt:
+                    if isinstance(p_, (ast.Lambda, ast.ListComp, ast.SetComp, ast.DictComp, ast.GeneratorExp, ast.IfExp, ast.BoolOp)):
+                        lazy = True
+                    p_ = parent.get(id(p_))
+                before = [c for c in ast.walk(nxt) if isinstance(c, ast.Call) and (getattr(c, 'end_lineno', 0), getattr(c, 'end_col_offset', 0)) <= (u.lineno, u.col_offset)]
+                if lazy or before:
+                    continue
+                sub = _Subst({name: st.value})
+                blk[blk.index(nxt)] = sub.visit(nxt)
+                blk.remove(st)
+                done += 1
+                cand = 'restart'
+                break
             # a use inside a nested scope is evaluated later than it is written: leave those alone
             def in_scope(u):
                 p_ = parent.get(id(u))
@@ -1249,6 +1286,8 @@ def propagate_new_temporaries(fn, pinfn):
             break
         if cand is None:
             break
+        if cand == 'restart':
+            continue
         st, name, blk = cand
         sub = _Subst({name: st.value})
         for i, s2 in enumerate(blk):
